@@ -131,6 +131,9 @@ class Ctx:
         e = dict(os.environ)
         # many TLC processes run side by side: keep each JVM's helper threads few
         e["JAVA_TOOL_OPTIONS"] = (e.get("JAVA_TOOL_OPTIONS", "") + " -XX:ParallelGCThreads=2 -XX:CICompilerCount=2 -Xss256m").strip()
+        if (workers or 0) == 1:
+            # trace validation: up to 16 such processes run side by side; without a cap each JVM may grow to 25% of RAM
+            e["JAVA_TOOL_OPTIONS"] += " -Xmx3g"
         if deque:
             e["JAVA_TOOL_OPTIONS"] = (e.get("JAVA_TOOL_OPTIONS", "") + " -Dtlc2.tool.queue.IStateQueue=StateDeque").strip()
         if env:
